@@ -12,7 +12,7 @@ GNext ==
                                   /\ H([a |-> "Submit", k |-> k])
   \/ \E ll \in Listeners, n \in EvNames : AddL(ll, n) /\ cnt.lop < MaxLop /\ ~m.lost /\ H([a |-> "AddL", l |-> ll, n |-> n])
   \/ \E ll \in Listeners, n \in EvNames : RemL(ll, n) /\ cnt.lop < MaxLop /\ ~m.lost /\ H([a |-> "RemL", l |-> ll, n |-> n])
-  \/ WhenDisc /\ cnt.disc < MaxDisc /\ H([a |-> "WhenDisc"])
+  \/ \E k \in {"plain", "again", "submit"} : WhenDisc(k) /\ cnt.disc < MaxDisc /\ H([a |-> "WhenDisc", k |-> k])
   \/ \E rs \in ReplyShapes : BeginReply(rs[1], rs[2]) /\ H([a |-> "BeginReply", cls |-> rs[1], sh |-> rs[2]])
   \/ \E n \in EvNames, sh \in EventShapes : BeginEvent(n, sh) /\ nev < MaxEv /\ H([a |-> "BeginEvent", n |-> n, sh |-> sh])
   \/ Line /\ H([a |-> "Line"])
